@@ -59,6 +59,10 @@ SEEDS = [
   {'C04': 'NOT detected (exit 0): Rule::check_match_all is inside the engine, which enters the contracts as an oracle (listed under not_covered)'}),
  ('C04-2', '/tmp/wt_C04/_out/2', 'C04', 'an authorizer-level scope (AuthorizerBuilder::scope) and a policy without its own `trusting` annotation',
   {'C04': 'VIOLATION token::authorizer::Authorizer::authorize_inner (precondition of lemma_tset at the policy query: the trusted set handed to the engine is not the specification one)', 'history': 'first run NOT detected (authorize_inner was an assumed callee); caught after unit authz put the decision composition under contract'}),
+ ('C19-1', '/tmp/wt_C19/_out/1', 'C19', 'a token whose last next-key is secp256r1 (seal signature is DER, not 64 bytes): biscuit_sealed_size computed by arithmetic disagrees with what biscuit_serialize_sealed writes',
+  {'C19': 'UNDECIDED (exit 2): the changed biscuit_sealed_size calls Biscuit::container() / Token::AlreadySealed, which the capi unit has no contract for; the front end rejects the unit and the check refuses to guess'}),
+ ('C19-2', '/tmp/wt_C19/_out/2', 'C19', 'biscuit_block_context called with block_index == block_count (off-by-one guard) so swap_remove panics across the FFI boundary',
+  {'C19': 'VIOLATION biscuit-capi::lib::biscuit_block_context::call-pre(vstd:vec.rs)[biscuit.0.context().swap_remove(block_index)]', 'history': 'function was not in unit capi at first (NOT detected); caught after biscuit_block_context was put under contract'}),
 ]
 only = sys.argv[1:] 
 for sid, src, prop, needs, det in SEEDS:
